@@ -12,8 +12,8 @@ def own(name, script, finding, detail=None):
 
 
 def run(tier, seed):
-    cfgs = ["flush-basic", "flush-twice", "flush-chain", "flush-self-busy", "flush-notag", "flush-walkover", "flush-renamedeep"] if tier == "quick" else \
-        ["flush-basic", "flush-self", "flush-chain", "flush-twice", "flush-idle", "flush-rename", "flush-self-busy", "flush-notag", "flush-walkover", "flush-renamedeep"]
+    cfgs = ["flush-basic", "flush-twice", "flush-chain", "flush-self-busy", "flush-notag", "flush-walkover", "flush-renamedeep", "flush-badsametag"] if tier == "quick" else \
+        ["flush-basic", "flush-self", "flush-chain", "flush-twice", "flush-idle", "flush-rename", "flush-self-busy", "flush-notag", "flush-walkover", "flush-renamedeep", "flush-badsametag"]
     return connloop.run("C14", tier, seed, cfgs, own, RULE, 150 if tier == "quick" else None)
 
 
